@@ -211,7 +211,8 @@ class SetEncoder(encoder.SequenceEncoder):
                     if namedType.isOptional and not component.isValue:
                             continue
 
-                    if namedType.isDefaulted and self._isDefault(component, namedType):
+                    if namedType.isDefaulted and self._isDefault(
+                        component, namedType, encodeFun, options):
                             continue
 
                     compsMap[id(component)] = namedType
@@ -253,7 +254,8 @@ class SetEncoder(encoder.SequenceEncoder):
                     if self._isDefaultPy(component, defaultValue):
                         continue
 
-                if namedType.isDefaulted and self._isDefault(component, namedType):
+                if namedType.isDefaulted and self._isDefault(
+                        component, namedType, encodeFun, options):
                     continue
 
                 compsMap[id(component)] = namedType
